@@ -14,7 +14,7 @@ cd /verif
 out=$(./check $prop --tier quick 2>&1); code=$?
 git -C /repo checkout -- .
 first=$(printf "%s\n" "$out" | grep -m1 "^  violation" | cut -c1-260)
-echo "$prop-$n exit=$code $first"
+printf "%s\n" "$prop-$n exit=$code $first"
 python3 - "$d/meta.json" "$prop" "$code" "$first" <<'PY'
 import json,sys
 p,prop,code,first=sys.argv[1:5]
